@@ -276,7 +276,7 @@ prop("C05",
      timing=True,
      quick=[{"re": "^TestC05$", "checks": 800, "shards": 4},
             {"re": "^TestC05Full$", "checks": 30},
-            {"re": "^TestC05Dump$", "checks": 80}],
+            {"re": "^TestC05Dump$", "checks": 300, "shards": 3}],
      thorough=[{"re": "^TestC05$", "checks": 120000, "shards": 12, "timeout": 1700},
                {"re": "^TestC05Full$", "checks": 1500, "shards": 3, "timeout": 1700},
                {"re": "^TestC05Dump$", "checks": 6000, "shards": 3, "timeout": 1700}],
@@ -301,8 +301,10 @@ prop("C07",
      timing=True,
      regress_re="^TestC07(Chunked)?Regress$",
      quick=[{"re": "^TestC07$", "checks": 1200, "shards": 4},
+            {"re": "^TestC07Slow$", "checks": 12, "shards": 4},
             {"re": "^TestC07Chunked$", "checks": 5}],
      thorough=[{"re": "^TestC07$", "checks": 360000, "shards": 12, "timeout": 1700},
+               {"re": "^TestC07Slow$", "checks": 480, "shards": 8, "timeout": 1700},
                {"re": "^TestC07Chunked$", "checks": 300, "shards": 6, "timeout": 1700}],
      rule="generated RDB (0-6 dbs in any order from 0..15, 0-6 keys each, every classic encoding, lua scripts, aux/resizedb/module-aux) x parallel 1..8 x "
           "target.db in {-1,0,3} x db/key/slot(sync only)/lua filters x key_exists x pre-existing target keys x RESTORE or element route x an injected "
@@ -334,7 +336,7 @@ INCR_RULE = ("source command streams of up to 25 commands drawn from a grammar: 
 prop("C03",
      title="Incremental sync forwards the filtered command stream in order, exactly once",
      timing=True,
-     quick=[{"re": "^TestC03$", "checks": 15, "shards": 3, "timeout": 600}],
+     quick=[{"re": "^TestC03$", "checks": 24, "shards": 4, "timeout": 600}],
      thorough=[{"re": "^TestC03$", "checks": 2800, "shards": 14, "timeout": 1700}],
      rule=INCR_RULE + "Oracle: reference model written from the statement (source-selected db tracking, db filter, OPINFO/lua/sentinel-hello/MULTI/EXEC never "
           "applied, reference key-filter rewrite from C13, destination db = source db or target.db) => expected sequence of (db, command, args); observed = "
@@ -353,9 +355,11 @@ prop("C03",
 prop("C04",
      title="Checkpoints are atomic with the data, so resume loses and repeats nothing",
      timing=True,
-     quick=[{"re": "^TestC04$", "checks": 12, "shards": 4, "timeout": 600}],
-     thorough=[{"re": "^TestC04$", "checks": 2400, "shards": 12, "timeout": 1700}],
-     rule=INCR_RULE + "Here resume is always on (target.db -1), start offsets 0 / 1000 / 2^33, user keys never carry the checkpoint prefix. For each stream: (a) the "
+     quick=[{"re": "^TestC04$", "checks": 12, "shards": 4, "timeout": 600},
+            {"re": "^TestC04EndToEnd$", "checks": 2, "shards": 2, "timeout": 600}],
+     thorough=[{"re": "^TestC04$", "checks": 2400, "shards": 12, "timeout": 1700},
+               {"re": "^TestC04EndToEnd$", "checks": 72, "shards": 6, "timeout": 1700}],
+     rule=INCR_RULE + "(end to end, TestC04EndToEnd) batches of 4-8 complete DbSyncer.Sync() runs (fake source + model target, as in C08) that start fresh or from a checkpoint left by an earlier run and answered with +CONTINUE, with an optional link drop: the data commands are applied exactly once and every stored checkpoint offset equals the source position of the last command applied with it. Restarts in the component check run against a target that also holds far-ahead checkpoints of sources whose address ends with / starts with ours. (component) Here resume is always on (target.db -1), start offsets 0 / 1000 / 2^33, user keys never carry the checkpoint prefix. For each stream: (a) the "
           "uninterrupted run must satisfy the C03 oracle; the exact byte stream the target received on the sender's connection is parsed into commands and "
           "EVERY prefix (cut between any two commands, inside or outside MULTI) is replayed into a fresh model with MULTI/EXEC semantics (a cut connection "
           "discards a queued transaction); at every cut: data applied == reference history restricted to source commands ending at or before the stored offset "
@@ -375,7 +379,7 @@ prop("C04",
 prop("C16",
      title="Scan-based migration (rump) copies every scanned key faithfully",
      timing=True,
-     quick=[{"re": "^TestC16$", "checks": 6, "shards": 3, "timeout": 600},
+     quick=[{"re": "^TestC16$", "checks": 9, "shards": 3, "timeout": 600},
             {"re": "^TestC16KeyFile$", "checks": 4, "timeout": 600},
             {"re": "^TestC16QoS$", "checks": 1, "timeout": 600}],
      thorough=[{"re": "^TestC16$", "checks": 1200, "shards": 12, "timeout": 1700},
